@@ -65,6 +65,13 @@ def configure_bad(sim, conf, is_client):
     c = sim.ch.stream("c03")
     if not hasattr(sim, "bad_mode"):
         sim.bad_mode = c.choose(3)  # drawn once per run (the server configuration is built first)
+    if is_client:
+        # every verify_mode other than CERT_NONE authenticates the server (for a client, CERT_OPTIONAL means
+        # CERT_REQUIRED: Python ssl documentation)
+        import ssl
+
+        conf.verify_mode = (None, ssl.CERT_REQUIRED, ssl.CERT_OPTIONAL, ssl.CERT_OPTIONAL)[c.choose(4)]
+        sim.probe_verify_mode = "verify_mode=%s" % (conf.verify_mode.name if conf.verify_mode is not None else "default")
     if sim.bad_mode == 0:
         # a perfectly good certificate (valid for localhost / 127.0.0.1) but the client asked for
         # another name, as a DNS name or as an IPv4 / IPv6 literal
@@ -503,6 +510,8 @@ def run_one(seed, tier="quick", variant=None, replay=None):
             s["probes"]["mitm_duplicate_not_claimed"] = m.skipped_duplicate
         if getattr(sim, "bad_cert", None):
             s["probes"]["bad:" + sim.bad_cert] = 1
+        if getattr(sim, "probe_verify_mode", None):
+            s["probes"][sim.probe_verify_mode] = 1
 
     return run_transport(seed, PROFILES[variant], make, replay=replay, monitor=True, variant=variant,
                          extra_summary=extra)
